@@ -2,6 +2,7 @@ package main
 
 import (
 	"fmt"
+	"go/token"
 	"go/types"
 	"sort"
 	"strings"
@@ -19,7 +20,7 @@ func init() {
 			"C05.txlife — path-sensitive typestate of bbolt transactions in both writers: after Commit no method is called on that transaction or on a bucket obtained from it until both are re-derived (the 1001st value of the in-memory writer); " +
 			"C05.flushorder — the big writer commits its pending temp transaction before it opens the read transaction on the temp database; " +
 			"C05.sorted — slices filled while ranging over the schema's maps (GetSchema: columns and values) are sorted ascending by their string key before use; " +
-			"C05.codec — writers and readers of the three record kinds (bitmap key, row counter, temp key) agree on byte order, width and offsets (= C01.codec); C05.schemaenc — both writers gob-encode their schema field under the schema key and the open function decodes that key into the same type; C05.rowcount — the row counter written is the writer's own counter field (one per AddRow call, also for rows without columns). " +
+			"C05.codec — writers and readers of the three record kinds (bitmap key, row counter, temp key) agree on byte order, width and offsets (= C01.codec); C05.schemaenc — both writers gob-encode their schema field under the schema key and the open function decodes that key into the same type; C05.rowcount — the row counter written is the writer's own counter field (one per AddRow call, also for rows without columns); C05.schemaadd — every path through schema.add finds or enters both the column and the value in the schema maps before it returns an index. " +
 			"NOT decided: observational identity of the two writers' outputs and exact schema/value sets (values); idempotence of reopening beyond the file not being written (C16).",
 		assumptions: []string{"bbolt: a transaction and its buckets are invalid after Commit", "roaring ToBytes serialises the whole bitmap", "encoding/gob round-trips the schema type", "loops unrolled up to 3 iterations cover the first/next/same-value cases of the merge loop"},
 	})
@@ -52,6 +53,7 @@ func runC05(c *Ctx) {
 	codecRule(c, "C05.codec")
 	schemaEncRule(c, "C05.schemaenc")
 	rowCountRule(c, "C05.rowcount")
+	schemaAddRule(c, "C05.schemaadd")
 }
 
 // siblingsRule: every pair of the row map goes through schema.add and the row is recorded under the returned index.
@@ -586,4 +588,75 @@ func persistsParam(c *Ctx, h *ssa.Function, p ssa.Value) bool {
 		return false
 	}
 	return c.fc.pathAvoiding(h, nil, isOK, isPut) == nil
+}
+
+// schemaAddRule: schema.add records every (column, value) pair it is given. For each of its two maps (columns by name,
+// values by value) every path from the entry to a return either takes the edge on which the lookup of the argument
+// reported "present" or passes a map update under that argument; and what is returned is the looked-up or stored
+// index. A shortcut that returns without consulting the maps leaves a pair out of the stored schema.
+func schemaAddRule(c *Ctx, rule string) {
+	sa := c.a.SchemaAdd
+	if sa == nil || len(sa.Params) != 3 || len(sa.Blocks) == 0 {
+		c.r.undecided(rule, "(*schema).add", "schema.add(column, value) not found")
+		return
+	}
+	fc := c.fc
+	for pi, what := range []string{"", "column", "value"} {
+		if pi == 0 {
+			continue
+		}
+		par := ssa.Value(sa.Params[pi])
+		var oks []ssa.Value
+		nUpd := 0
+		allInstrs(sa, func(i ssa.Instruction) {
+			switch x := i.(type) {
+			case *ssa.Lookup:
+				if x.CommaOk && x.Index == par {
+					if e := extractOf(x, 1); e != nil {
+						oks = append(oks, e)
+					}
+				}
+			case *ssa.MapUpdate:
+				if x.Key == par {
+					nUpd++
+				}
+			}
+		})
+		construct := "(*schema).add: " + what
+		if nUpd == 0 {
+			c.r.bad(rule, construct, fmt.Sprintf("schema.add never enters its %s argument into a map: the stored schema cannot list it", what), []string{c.w.pos(sa.Pos())})
+			continue
+		}
+		isOK := func(v ssa.Value) bool {
+			for _, o := range oks {
+				if o == v {
+					return true
+				}
+			}
+			return false
+		}
+		w := fc.pathAvoidingEdges(sa,
+			func(i ssa.Instruction) bool { _, ok := i.(*ssa.Return); return ok },
+			func(i ssa.Instruction) bool { mu, ok := i.(*ssa.MapUpdate); return ok && mu.Key == par },
+			func(pred, succ *ssa.BasicBlock) bool {
+				iff, ok := pred.Instrs[len(pred.Instrs)-1].(*ssa.If)
+				if !ok || len(pred.Succs) != 2 {
+					return false
+				}
+				cond, pol := iff.Cond, pred.Succs[0] == succ
+				for {
+					if u, ok := cond.(*ssa.UnOp); ok && u.Op == token.NOT {
+						cond, pol = u.X, !pol
+						continue
+					}
+					break
+				}
+				return isOK(cond) && pol
+			})
+		if w != nil {
+			c.r.bad(rule, construct, fmt.Sprintf("a path through schema.add returns although its %s argument was neither found in nor entered into the schema: rows are recorded under an index whose pair the stored schema does not list", what), []string{c.w.ipos(w[len(w)-1])}, fc.witnessStrings(w)...)
+		} else {
+			c.r.ok(rule, construct, fmt.Sprintf("every return follows a successful lookup or an insertion of the %s", what), c.w.pos(sa.Pos()))
+		}
+	}
 }
